@@ -439,3 +439,126 @@ Proof.
   - intros x y z. cbv beta. unfold chi. now rewrite gdot_cfun.
   - intros al be Ha Hb. exact (kinetic_prim_grad_integral _ _ _ _ al be (Pa _ Ha) (Pb _ Hb)).
 Qed.
+
+(* ------------------------------------------------------------------ *)
+(* 7. the kinetic-energy matrix of the model is a Gram matrix          *)
+(* ------------------------------------------------------------------ *)
+(* sum_p c_p (d/dx_i chi_{a_p}): the partial derivatives of the linear combination (see pd3_lcf) *)
+Definition lcd (ox oy oz : nat) (l : list (R * bidx)) (x y z : R) : R :=
+  lc (fun a => pd3 ox oy oz (chi a) x y z) l.
+
+Lemma qf_gdot (l : list (R * bidx)) (x y z : R) :
+  qf (fun a b => 1 / 2 * gdot (chi a) (chi b) x y z) l
+  = 1 / 2 * (lcd 1 0 0 l x y z * lcd 1 0 0 l x y z + lcd 0 1 0 l x y z * lcd 0 1 0 l x y z
+             + lcd 0 0 1 l x y z * lcd 0 0 1 l x y z).
+Proof.
+  unfold gdot, lcd.
+  rewrite (qf_scal (1 / 2)
+             (fun a b => pd3 1 0 0 (chi a) x y z * pd3 1 0 0 (chi b) x y z
+                         + pd3 0 1 0 (chi a) x y z * pd3 0 1 0 (chi b) x y z
+                         + pd3 0 0 1 (chi a) x y z * pd3 0 0 1 (chi b) x y z) l).
+  rewrite (qf_add (fun a b => pd3 1 0 0 (chi a) x y z * pd3 1 0 0 (chi b) x y z
+                              + pd3 0 1 0 (chi a) x y z * pd3 0 1 0 (chi b) x y z)
+                  (fun a b => pd3 0 0 1 (chi a) x y z * pd3 0 0 1 (chi b) x y z) l).
+  rewrite (qf_add (fun a b => pd3 1 0 0 (chi a) x y z * pd3 1 0 0 (chi b) x y z)
+                  (fun a b => pd3 0 1 0 (chi a) x y z * pd3 0 1 0 (chi b) x y z) l).
+  rewrite (qf_rank1 (fun a => pd3 1 0 0 (chi a) x y z)), (qf_rank1 (fun a => pd3 0 1 0 (chi a) x y z)),
+          (qf_rank1 (fun a => pd3 0 0 1 (chi a) x y z)).
+  reflexivity.
+Qed.
+
+Theorem kinetic_quadratic_form_is_integral (l : list (R * bidx)) :
+  (forall p, In p l -> bvalid (snd p)) ->
+  gint3 (fun x y z => 1 / 2 * (lcd 1 0 0 l x y z * lcd 1 0 0 l x y z + lcd 0 1 0 l x y z * lcd 0 1 0 l x y z
+                               + lcd 0 0 1 l x y z * lcd 0 0 1 l x y z))
+        (qf Tkin l).
+Proof.
+  intro Hl.
+  refine (gint3_ext _ _ _ _ _ eq_refl
+            (gint3_qf (fun a b x y z => 1 / 2 * gdot (chi a) (chi b) x y z) Tkin bvalid
+                      kinetic_pair_is_grad_integral l Hl)).
+  intros x y z. apply qf_gdot.
+Qed.
+
+Theorem kinetic_model_psd : psd_on bvalid Tkin.
+Proof.
+  intros l Hl. refine (gint3_nonneg _ _ _ (kinetic_quadratic_form_is_integral l Hl)).
+  intros x y z. cbv beta.
+  pose proof (Rle_0_sqr (lcd 1 0 0 l x y z)) as Hx. pose proof (Rle_0_sqr (lcd 0 1 0 l x y z)) as Hy.
+  pose proof (Rle_0_sqr (lcd 0 0 1 l x y z)) as Hz. unfold Rsqr in *. lra.
+Qed.
+
+Theorem kinetic_model_symm : symm_on bvalid Tkin.
+Proof.
+  apply (gint3_symm_on (fun a b x y z => 1 / 2 * gdot (chi a) (chi b) x y z) Tkin bvalid
+                       kinetic_pair_is_grad_integral).
+  intros. unfold gdot. ring.
+Qed.
+
+Theorem kinetic_model_schwarz (a b : bidx) : bvalid a -> bvalid b ->
+  Tkin a b * Tkin a b <= Tkin a a * Tkin b b.
+Proof. apply psd_on_schwarz; [exact kinetic_model_symm | exact kinetic_model_psd]. Qed.
+
+Lemma TkinV_symm : symm TkinV.
+Proof. intros a b. exact (kinetic_model_symm _ _ (proj2_sig a) (proj2_sig b)). Qed.
+Lemma TkinV_psd : psd TkinV.
+Proof. exact (psd_on_sig bvalid Tkin kinetic_model_psd). Qed.
+
+Theorem kinetic_model_is_gram :
+  exists (H1 : ipspace) (dphi : vidx -> vec H1), forall a b, TkinV a b = ip H1 (dphi a) (dphi b).
+Proof. exact (psd_symm_is_gram TkinV TkinV_symm TkinV_psd). Qed.
+
+(* integration by parts at the level of the model's numbers: the two integral readings of the kinetic
+   entry (Bridge3D.kinetic_block_is_integral: chi_a (-1/2 Laplacian) chi_b; here: 1/2 grad . grad) have the
+   same value *)
+Corollary kinetic_two_readings (a b : bidx) : bvalid a -> bvalid b ->
+  gint3 (fun x y z => chi a x y z * (- (1 / 2) * lap3 (chi b) x y z)) (Tkin a b) /\
+  gint3 (fun x y z => 1 / 2 * gdot (chi a) (chi b) x y z) (Tkin a b).
+Proof.
+  intros Ha Hb. split; [|now apply kinetic_pair_is_grad_integral].
+  destruct Ha as [Wa [Pa [Hma Hia]]]. destruct Hb as [Wb [Pb [Hmb Hib]]].
+  exact (kinetic_block_is_integral (bsh a) (bsh b) (bseg a) (bci a) (bseg b) (bci b) Wa Wb Pa Pb Hma Hia Hmb Hib).
+Qed.
+
+(* ------------------------------------------------------------------ *)
+(* 8. GramP.all_bounds_from_B3 with the overlap and kinetic hypotheses discharged *)
+(* ------------------------------------------------------------------ *)
+(* any family v of valid basis functions of the model (any index type I; repetitions allowed):
+   Sm a b = Sov (v a) (v b), Tm a b = Tkin (v a) (v b) are PROVED Gram matrices; what is left as a hypothesis is
+   the Gram representation of the point-charge and repulsion arrays (bridge B3 with B2) *)
+Theorem all_bounds_S_T_proved (I : Type) (v : I -> vidx) (Vm : I -> I -> R) (G : I -> I -> I -> I -> R) (q : R) :
+  0 <= q ->
+  (exists (W : ipspace) (phi : I -> vec W), forall a b, Vm a b = - q * ip W (phi a) (phi b)) ->
+  (exists (C : ipspace) (rho : I -> I -> vec C), forall a b c d, G a b c d = ip C (rho a b) (rho c d)) ->
+  let Sm := fun a b => SovV (v a) (v b) in
+  let Tm := fun a b => TkinV (v a) (v b) in
+  symm Sm /\ psd Sm /\ (forall a b, Sm a b * Sm a b <= Sm a a * Sm b b) /\
+  ((forall a, Sm a a = 1) -> forall a b, Rabs (Sm a b) <= 1) /\
+  symm Tm /\ psd Tm /\ (forall a b, Tm a b * Tm a b <= Tm a a * Tm b b) /\
+  symm Vm /\ nsd Vm /\
+  psd (fun p r : I * I => G (fst p) (snd p) (fst r) (snd r)) /\
+  (forall a b c d, G a b c d = G c d a b) /\
+  (forall a b, 0 <= G a b a b) /\
+  (forall a b c d, G a b c d * G a b c d <= G a b a b * G c d c d).
+Proof.
+  intros Hq HV HG Sm Tm.
+  assert (Ss : symm Sm) by (intros a b; apply SovV_symm).
+  assert (Sp : psd Sm) by (intro l; unfold Sm; rewrite (qf_map v SovV); apply SovV_psd).
+  assert (Ts : symm Tm) by (intros a b; apply TkinV_symm).
+  assert (Tp : psd Tm) by (intro l; unfold Tm; rewrite (qf_map v TkinV); apply TkinV_psd).
+  destruct (psd_symm_is_gram Sm Ss Sp) as [L2 [phi HS]].
+  destruct (psd_symm_is_gram Tm Ts Tp) as [H1 [dphi HT]].
+  split; [exact Ss|]. split; [exact Sp|].
+  split; [intros a b; now apply psd_schwarz|].
+  split; [intros Hd a b; apply psd_unit_diag_bound; auto|].
+  split; [exact Ts|]. split; [exact Tp|].
+  split; [intros a b; now apply psd_schwarz|].
+  (* the remaining conjuncts: GramP.all_bounds_from_B3 on a one-point overlap to reuse its proof *)
+  destruct HV as [W [wphi HV]]. destruct HG as [C [rho HG]].
+  split; [intros a b; rewrite !HV; f_equal; apply ip_sym|].
+  split; [intros l; rewrite (qf_ext Vm (fun a b => - q * gram W wphi a b) l HV); now apply neg_charge_nsd|].
+  split; [apply (psd_ext _ (eri_mat C rho)); [intros p r; apply HG | apply eri_pair_psd]|].
+  split; [intros a b c d; rewrite !HG; apply ip_sym|].
+  split; [intros a b; rewrite HG; apply ip_pos|].
+  intros a b c d. rewrite !HG. apply (eri_schwarz C rho).
+Qed.
